@@ -378,6 +378,37 @@ def main(tier, seed):
                 elif abs(got - want) > 1e-12 * max(1.0, abs(want)):
                     run.violation({"site": "p." + direction, "observed": "interpolated value off the straight line between neighbours",
                                    "at_measured_point": q.denominator == 1 and int(q) in kx}, {"grid": [kx, ky], "q": str(q), "returned": got, "expected": want})
+    # desorption branch (stored with decreasing pressure) and a fill rule given although the query is inside the range:
+    # the value must still be the datum / the chord
+    for xs in grids[:6]:
+        ys = [x * x + i for i, x in enumerate(xs)]
+        top_p, top_l = xs[-1] + 1, ys[-1] + 3
+        pr = [float(v) for v in xs] + [float(top_p)] + [float(v) - 0.25 for v in reversed(xs)]
+        ld = [float(v) for v in ys] + [float(top_l)] + [float(v) + 0.5 for v in reversed(ys)]
+        br = [0] * (len(xs) + 1) + [1] * len(xs)
+        for direction in ("loading_at", "pressure_at"):
+            for branch in ("ads", "des"):
+                bx = [p for p, b in zip(pr, br) if b == (0 if branch == "ads" else 1)]
+                by = [l for l, b in zip(ld, br) if b == (0 if branch == "ads" else 1)]
+                kx, ky = (bx, by) if direction == "loading_at" else (by, bx)
+                order = numpy.argsort(kx)
+                kxs, kys = numpy.asarray(kx)[order], numpy.asarray(ky)[order]
+                queries = list(kxs) + [0.5 * (kxs[i] + kxs[i + 1]) for i in range(len(kxs) - 1)]
+                for fill in (None, (-7.0, 77.0), "extrapolate"):
+                    df = pandas.DataFrame({"pressure": pr, "loading": ld, "branch": br})
+                    iso = pygaps.PointIsotherm(isotherm_data=df, pressure_key="pressure", loading_key="loading", material="verif_mat", adsorbate="nitrogen", temperature=77, **py_labels(state()))
+                    for q in queries:
+                        want = float(numpy.interp(q, kxs, kys))
+                        run.count(("interp-branch", direction, branch, str(fill), tuple(xs), round(float(q), 6)))
+                        try:
+                            got = float(getattr(iso, direction)(q, branch=branch, interp_fill=fill))
+                        except Exception as e:
+                            run.violation({"site": "p." + direction, "observed": "refused inside the measured range", "branch": branch, "fill_rule_given": fill is not None,
+                                           "exception": exc_class(e)}, {"data": [kx, ky], "q": float(q)})
+                            continue
+                        if abs(got - want) > 1e-9 * max(1.0, abs(want)):
+                            run.violation({"site": "p." + direction, "observed": "interpolated value off the straight line between neighbours", "branch": branch,
+                                           "fill_rule_given": fill is not None}, {"data": [kx, ky], "q": float(q), "returned": got, "expected": want})
     # other interpolation kinds: must coincide with the data at measured points and refuse outside the range
     for kind in ("nearest", "zero", "slinear", "quadratic", "cubic"):
         xs = [1.0, 2.0, 3.5, 5.0, 7.0, 8.0]
